@@ -173,6 +173,11 @@ Definition sd_getrange_fb (ap : option (list mattr)) (vnt sz : Z) : option (byte
   | Some a1, Some a2 => if (m_hdf a1 =? vnt) && (m_hdf a2 =? vnt) then Some (fixed sz (m_data a1), fixed sz (m_data a2)) else None
   | _, _ => None
   end.
+(** SDgetdimscale: how many values are read.  A fixed dimension: its size.  An unlimited one: the file-wide record
+    count for a netCDF file, the coordinate variable's own record count for an HDF file (the test as the source has it) *)
+Definition sd_getdimscale_count (is_hdf : bool) (dimsize file_numrecs var_numrecs : Z) : Z :=
+  if negb (dimsize =? 0) then dimsize
+  else if (if GETDIMSCALE_FILE_NUMRECS_IF_HDF =? 0 then negb is_hdf else is_hdf) then file_numrecs else var_numrecs.
 Definition sd_setfill (ap : option (list mattr)) (vnt sz : Z) (v : bytes) : option (option (list mattr)) :=
   sdi_putattr ap _FillValue vnt 1 (fixed sz v).
 Definition sd_getfill (ap : option (list mattr)) : option bytes :=
@@ -304,9 +309,11 @@ Fixpoint vs_replace_loop (l : list aentry) (findex : Z) (name : bytes) (nt count
          end
   end.
 (** VSsetattr ([nfields] = vs->wlist.n, [writable] = access != 'r') *)
-Definition vs_setattr (writable : bool) (nfields : Z) (l : list aentry) (findex : Z) (name : bytes) (nt count : Z) (data : bytes)
+(** the access test ("vs->access == 'r'" / "vg->access != 'w'": FAIL), present as often as the source has it *)
+Definition access_ok (checks : Z) (writable : bool) : bool := if 0 <? checks then writable else true.
+Definition vs_setattr_gen (checks : Z) (writable : bool) (nfields : Z) (l : list aentry) (findex : Z) (name : bytes) (nt count : Z) (data : bytes)
   : vsres :=
-  if negb writable then VFail else
+  if negb (access_ok checks writable) then VFail else
   if ((nfields <=? findex) || (findex <? 0)) && negb (findex =? _HDF_VDATA) then VFail else
   match vs_replace_loop l findex name nt count data with
   | Some r => r
@@ -315,6 +322,7 @@ Definition vs_setattr (writable : bool) (nfields : Z) (l : list aentry) (findex 
             | None => VFail
             end
   end.
+Definition vs_setattr := vs_setattr_gen VSSETATTR_ACCESS_CHECKS.
 (** VSfnattrs *)
 Definition vs_fnattrs (l : list aentry) (findex : Z) : Z := zlen (filter (fun e => ae_findex e =? findex) l).
 (** VSattrinfo / VSgetattr: the attrindex-th entry of this field; attrindex is first checked against the total *)
@@ -339,7 +347,7 @@ Definition vs_findattr (l : list aentry) (findex : Z) (name : bytes) : option Z 
 
 (** Vsetattr / Vattrinfo / Vfindattr: the same table without field index (entries carry findex 0) *)
 Definition vg_setattr (writable : bool) (l : list aentry) (name : bytes) (nt count : Z) (data : bytes) : vsres :=
-  vs_setattr writable 1 l 0 name nt count data.
+  vs_setattr_gen VSETATTR_ACCESS_CHECKS writable 1 l 0 name nt count data.
 Definition vg_attrinfo (l : list aentry) (i : Z) : option aentry := vs_attrinfo l 0 i.
 Definition vg_findattr (l : list aentry) (name : bytes) : option Z := vs_findattr l 0 name.
 
